@@ -148,6 +148,20 @@ def _eigh_one(A, cplx, B=None):
                 for j in range(D):
                     e = SC(V[i, j])
                     CTX.fact(z3.And(e.re.z >= -1, e.re.z <= 1, e.im.z >= -1, e.im.z <= 1), simple=True)
+            # reconstruction of the triangle LAPACK reads (UPLO='L'):  A[i,j] = sum_k w_k V[i,k] conj(V[j,k]),  i >= j
+            for i in range(D):
+                for j in range(i + 1):
+                    s = 0
+                    for k in range(D):
+                        s = V[i, k] * V[j, k].conjugate() * w[k] + s
+                    if i == j:
+                        CTX.fact(SC(s).re.z == SC(A[i, i]).re.z)
+                    else:
+                        _eq_fact(s, A[i, j])
+            if D == 2:
+                # product of the eigenvalues = determinant of the Hermitian matrix LAPACK sees
+                det = SC(A[0, 0]).re * SC(A[1, 1]).re - (SC(A[1, 0]).re * SC(A[1, 0]).re + SC(A[1, 0]).im * SC(A[1, 0]).im)
+                CTX.fact((w[0] * w[1]).z == SR(det).z)
         return (w, V)
 
     key_mat = A if B is None else np.concatenate([A.reshape(-1), B.reshape(-1)]).reshape(2, D, D)
@@ -227,8 +241,48 @@ def _det(A):
     return tot
 
 
+def _all_concrete(A):
+    for e in A.reshape(-1):
+        e = SC(e)
+        if not (e.re.is_conc and e.im.is_conc):
+            return False
+    return True
+
+
+def _exact_inverse(A):
+    """Gauss-Jordan on exact complex rationals"""
+    D = A.shape[-1]
+    M = [[SC(A[i, j]) for j in range(D)] + [SC(1 if i == j else 0) for j in range(D)] for i in range(D)]
+    for c in range(D):
+        piv = None
+        for r in range(c, D):
+            if not core._is_zero(M[r][c]):
+                piv = r
+                break
+        if piv is None:
+            raise np.linalg.LinAlgError('Singular matrix')
+        M[c], M[piv] = M[piv], M[c]
+        pv = M[c][c]
+        M[c] = [x / pv for x in M[c]]
+        for r in range(D):
+            if r != c and not core._is_zero(M[r][c]):
+                fct = M[r][c]
+                M[r] = [x - fct * y for x, y in zip(M[r], M[c])]
+    out = np.empty((D, D), dtype=object)
+    for i in range(D):
+        for j in range(D):
+            out[i, j] = M[i][D + j]
+    return out
+
+
 def _inverse_of(A, cplx):
     D = A.shape[-1]
+    if _all_concrete(A):
+        Ai = _exact_inverse(A)
+        if not cplx:
+            for idx in np.ndindex(Ai.shape):
+                Ai[idx] = Ai[idx].re
+        return Ai
 
     def build():
         Ai = _fresh_mat('inv', (D, D), cplx)
@@ -241,6 +295,12 @@ def _inverse_of(A, cplx):
                     s2 = Ai[i, r] * A[r, j] + s2
                 _eq_fact(s1, 1 if i == j else 0)
                 _eq_fact(s2, 1 if i == j else 0)
+        if cplx and _is_hermitian_syntactic(A):
+            # the inverse of a Hermitian matrix is Hermitian (derived, sound)
+            for i in range(D):
+                CTX.fact(SC(Ai[i, i]).im.z == 0)
+                for j in range(i + 1, D):
+                    _eq_fact(Ai[i, j], SC(Ai[j, i]).conjugate())
         return (Ai,)
     return _memo('inv', A, build)[0]
 
